@@ -32,24 +32,24 @@ package main
 // KeepRets: no dropped statement may contain a return.
 func init() {
 	sh := map[string]string{
-		"now := c.timeNow()":            "",
-		"verifPoint(...":                "",
-		"callReq := new(callReq)":       "",
-		"callReq.id = frame.Header.ID":  "",
-		"c.log.WithFields(...":          "",
-		"call := new(InboundCall)":      "",
-		"call.conn = c":                 "",
-		"ctx, cancel := newIncomingContext(c.baseContext, call, callReq.TimeToLive)":                  "",
-		"initialFragment, err := parseInboundFragment(c.opts.FramePool, frame, callReq)":              "let err := negb parse_ok in",
+		"now := c.timeNow()":           "",
+		"verifPoint(...":               "",
+		"callReq := new(callReq)":      "",
+		"callReq.id = frame.Header.ID": "",
+		"c.log.WithFields(...":         "",
+		"call := new(InboundCall)":     "",
+		"call.conn = c":                "",
+		"ctx, cancel := newIncomingContext(c.baseContext, call, callReq.TimeToLive)":                 "",
+		"initialFragment, err := parseInboundFragment(c.opts.FramePool, frame, callReq)":             "let err := negb parse_ok in",
 		"mex, err := c.inbound.newExchange(ctx, cancel, c.opts.FramePool, callReq.messageType(),...": "let err := negb mex_ok in",
-		"if err == errDuplicateMex {...": "",
+		"if err == errDuplicateMex {...":                                           "",
 		"c.protocolError(frame.Header.ID, errInboundRequestAlreadyActive)":         "let tr := tr ++ [4] in",
 		"c.SendSystemError(frame.Header.ID, callReqSpan(frame), ErrChannelClosed)": "let tr := tr ++ [1] in",
-		"mex.shutdown()": "let tr := tr ++ [2] in",
-		"response := new(InboundCallResponse)":                      "",
-		"if response.span != nil {...":                              "",
-		"setResponseHeaders(call.headers, response.headers)":        "",
-		"call.createStatsTags(c.commonStatsTags)":                   "",
+		"mex.shutdown()":                                     "let tr := tr ++ [2] in",
+		"response := new(InboundCallResponse)":               "",
+		"if response.span != nil {...":                       "",
+		"setResponseHeaders(call.headers, response.headers)": "",
+		"call.createStatsTags(c.commonStatsTags)":            "",
 	}
 	for _, f := range []string{"call", "calledAt", "timeNow", "span", "mex", "conn", "cancel", "log", "contents", "headers",
 		"messageForFragment", "statsReporter", "commonStatsTags"} {
